@@ -81,7 +81,7 @@ def extra_obligations(world, tier, seed):
         keys = QUERY_DOCUMENT_KEYS.get(c.kind)
         ok = (keys is not None and set(keys) == nodef) or (keys is None and not nodef)
         out.append({"func": "graphql.language.ast.QUERY_DOCUMENT_KEYS", "kind": "FINITE",
-                    "text": f"{c.kind}: keys == node-valued fields of {c.__name__}",
+                    "text": f"{c.__name__}: the key table lists exactly its node-valued fields",
                     "status": "discharged" if ok else "refuted", "backend": "finite",
                     "detail": f"keys={keys} fields={sorted(nodef)}",
                     "model": None if ok else {"kind": c.kind, "keys": keys, "node_fields": sorted(nodef)}})
